@@ -327,7 +327,7 @@ def _keyerror(check: Check):
     for n, rv in rets:
       g = guards_of(ff, n.ast)
       has_range = any(pol and _is_range_guard(t, mth.positional_params[1]) for t, pol in g)
-      has_found = any(pol and isinstance(t, ast.Compare) and isinstance(t.ops[0], ast.IsNot) and isinstance(
+      has_found = any((not pol) and isinstance(t, ast.Compare) and isinstance(t.ops[0], ast.Is) and isinstance(
           t.comparators[0], ast.Constant) and t.comparators[0].value is None for t, pol in g)
       ok_ret = ok_ret and has_range and has_found
     last = mth.node.body[-1]
